@@ -271,6 +271,8 @@ extern const int g_n_hash_suites;
 extern const struct suite g_aead_suites[];
 extern const int g_n_aead_suites;
 int item_pick_ooo(struct rng *r, const struct suite **cs, const struct suite **hs, int *dir);
+int item_ooo_by_index(int idx, const struct suite **cs, const struct suite **hs, int *dir);
+int item_ooo_count(void);
 const char *cipher_name(int c);
 const char *hash_name(int h);
 
